@@ -39,7 +39,9 @@
 //!       in <closed> (e.g. `0,1,2`), are closed, so that the listener of `varlink_exec` lands on the
 //!       lowest free descriptor — 3: the branch that clears close-on-exec; 0, 1 or 2: moved up with
 //!       dup2 — then one GetInfo call
-//!       -> (act3 (reply x<vendor>) <act>) | (act3 (fail x<why>) <act>)
+//!       -> (act3 (reply x<vendor>) <act> (banner <where>)) | (act3 (fail x<why>) <act> (banner <where>))
+//!          where = stderr | stdout | both | none: on which of the caller's (distinct) pipes the banner
+//!          arrived that the activated service prints on its stdout
 use crate::rng::Rng;
 use crate::suites::wire;
 use crate::sx::{self, Sx};
@@ -563,8 +565,31 @@ fn run_act3(ctx: &Ctx, l: &[Sx]) -> Sx {
         .arg(&out)
         .arg(&closed)
         .stdin(std::process::Stdio::null())
+        .stdout(std::process::Stdio::piped())
+        .stderr(std::process::Stdio::piped())
         .spawn()
         .expect("spawn helper");
+    // the caller (actclient) has distinct stdout and stderr pipes: the activated service prints a
+    // banner on ITS stdout, which must be the caller's stderr
+    let mut child = child;
+    let grab = |r: Option<Box<dyn Read + Send>>| {
+        let buf = std::sync::Arc::new(std::sync::Mutex::new(Vec::new()));
+        if let Some(mut r) = r {
+            let b2 = buf.clone();
+            std::thread::spawn(move || {
+                let mut tmp = [0u8; 4096];
+                loop {
+                    match r.read(&mut tmp) {
+                        Ok(0) | Err(_) => break,
+                        Ok(n) => b2.lock().unwrap().extend_from_slice(&tmp[..n]),
+                    }
+                }
+            });
+        }
+        buf
+    };
+    let out_buf = grab(child.stdout.take().map(|x| Box::new(x) as Box<dyn Read + Send>));
+    let err_buf = grab(child.stderr.take().map(|x| Box::new(x) as Box<dyn Read + Send>));
     let mut guard = ChildGuard::new(child);
     let st = guard.wait_timeout(Duration::from_secs(8));
     let d = read_dump(&dump, Duration::from_millis(100));
@@ -589,6 +614,19 @@ fn run_act3(ctx: &Ctx, l: &[Sx]) -> Sx {
         _ => vec![sx::tagged("fail", vec![sx::xs("no report")]), sx::tagged("noact", vec![])],
     };
     drop(guard);
+    std::thread::sleep(Duration::from_millis(30));
+    let has = |b: &std::sync::Arc<std::sync::Mutex<Vec<u8>>>| {
+        let v = b.lock().unwrap();
+        v.windows(BANNER.len()).any(|w| w == BANNER.as_bytes())
+    };
+    let banner = match (has(&out_buf), has(&err_buf)) {
+        (true, true) => "both",
+        (true, false) => "stdout",
+        (false, true) => "stderr",
+        (false, false) => "none",
+    };
+    let mut res = res;
+    res.push(sx::tagged("banner", vec![sx::atom(banner)]));
     let _ = std::fs::remove_dir_all(&sub.dir);
     sx::tagged("act3", res)
 }
